@@ -456,3 +456,33 @@ end
             return dict(found=True, input=inp, clause='PACKAGE', detail=f'{what}: the tool panicked: {out[-160:]}', tried=n), None
         return dict(found=False, broken=True, tried=n, detail=f'harness program {inp} did not run (exit {rc}): {out[-200:]}'), None
     return dict(found=False, tried=n), None
+
+
+def generated_glue(repo, build, log):
+    """Assumption A2-glue of C11, evaluated on the parser LALRPOP GENERATES from the current grammar (found in the build output of the CLI
+    built from /repo on this run): the entry point `SourceUnitParser::parse` hands exactly `tokens.into_iter().map(to_triple)` to
+    `state_machine::Parser::drive`, `to_triple` of a (start, token, end) triple is `Ok(value)`, and no generated table uses error recovery."""
+    import glob
+    import os
+    binp = build_cli(repo, build, log)
+    if not binp:
+        return dict(status='not-run', detail='CLI could not be built')
+    cands = sorted(glob.glob(os.path.join(build, 'cli-target', 'debug', 'build', 'zydeco-surface-*', 'out', 'textual', 'parser.rs')), key=os.path.getmtime)
+    if not cands:
+        return dict(status='not-run', detail='generated parser.rs not found in the build output')
+    src = open(cands[-1], encoding='utf-8').read()
+    norm = re.sub(r'\s+', ' ', src)
+    problems = []
+    m = re.search(r'impl SourceUnitParser \{.*?pub fn parse<.*?\{ (let __tokens = __tokens0\.into_iter\(\); let mut __tokens = __tokens\.map\(\|t\| __ToTriple::to_triple\(t\)\); '
+                  r'__state_machine::Parser::drive\( __StateMachine \{[^}]*\}, __tokens, \)) \}', norm)
+    if not m:
+        problems.append('SourceUnitParser::parse does not have the form `drive(__StateMachine{..}, __tokens0.into_iter().map(to_triple))`')
+    n_rec = len(re.findall(r'fn uses_error_recovery\(&self\) -> bool \{ false \}', norm))
+    n_all = len(re.findall(r'fn uses_error_recovery\(&self\) -> bool \{', norm))
+    if n_all == 0 or n_rec != n_all:
+        problems.append(f'{n_all - n_rec} of {n_all} generated tables use error recovery')
+    if not re.search(r"for \(usize, Tok<'input>, usize\) \{ fn to_triple\(self\) -> Result<[^{]*\{ Ok\(self\) \}", norm):
+        problems.append('`to_triple` for (usize, Tok, usize) is not `Ok(self)`')
+    if problems:
+        return dict(status='violated', detail='; '.join(problems), file=cands[-1])
+    return dict(status='holds-on-generated-code', tried=n_all, file=cands[-1])
